@@ -340,7 +340,7 @@ func (g *ValueGen) Gen(t *Type, depth int) *Val {
 			if cat == "set" {
 				// elements must differ as wire values: an absent container in a non-optional field and an empty
 				// one, or an optional field equal to its default and an absent one, are the same element
-				c := EqCanon(NormalizeWire(e))
+				c := EqCanon(goState(e))
 				if seen[c] || hasNaN(e) {
 					continue
 				}
@@ -359,7 +359,7 @@ func (g *ValueGen) Gen(t *Type, depth int) *Val {
 			if k == nil || e == nil || hasNaN(k) {
 				continue
 			}
-			c := EqCanon(NormalizeWire(k))
+			c := EqCanon(goState(k))
 			if seen[c] {
 				continue
 			}
@@ -592,6 +592,46 @@ func NormalizeWire(v *Val) *Val {
 	}
 	c := *v
 	return &c
+}
+
+// goState is the value as the generated Go object holds it after decoding: NormalizeWire, plus the declared
+// default in every absent optional container / struct field (a fresh object carries it).  Two set elements or
+// map keys with the same goState are one element to the generated uniqueness check.
+func goState(v *Val) *Val {
+	n := NormalizeWire(v)
+	var fill func(x *Val)
+	fill = func(x *Val) {
+		if x == nil {
+			return
+		}
+		switch x.Cat {
+		case "list", "set":
+			for _, e := range x.L {
+				fill(e)
+			}
+		case "map":
+			for _, e := range x.M {
+				fill(e[0])
+				fill(e[1])
+			}
+		case "struct":
+			for _, e := range x.F {
+				fill(e)
+			}
+			// the constructor writes the default as a literal: what it inserts is not completed again
+			for _, f := range x.Def.Fields {
+				if _, ok := x.F[f.ID]; !ok && f.Default != nil && x.Def.EffReq(f) == ReqOptional {
+					if cat := WireCat(f.Type); !isScalarCat(cat) && cat != "binary" {
+						if d := DefaultOf(f); d != nil {
+							x.F[f.ID] = NormalizeWire(d)
+						}
+					}
+				}
+			}
+		}
+	}
+	fill(n)
+	return n
 }
 
 // EqualWire compares two values structurally (maps and sets order-insensitive, doubles by bits).
